@@ -126,6 +126,8 @@ def run_rapid_leg(prop, leg_no, leg, wd, binary):
                 "VERIF_TIER": leg.get("tier", "quick"),
                 "VERIF_SCRATCH": os.path.join(od, "scratch"),
                 "GORACE": "halt_on_error=1 exitcode=66",
+                # one shard per core: without this every shard runs GC and scheduler on all cores
+                "GOMAXPROCS": str(leg.get("gomaxprocs", 2)),
             })
             env.pop("VERIF_REPLAY", None)
             for k, v in leg.get("env", {}).items():
